@@ -284,12 +284,50 @@ pub fn gen_query(rng: &mut Rng, faults: bool) -> Op {
 }
 
 pub fn gen_mod(rng: &mut Rng) -> Op {
-    let name = match rng.below(10) {
+    let name = match rng.below(14) {
         0 => "m.ring2",
         1 | 2 => "m.divisor",
         3 | 4 => "m.half",
+        10 | 11 => "m.udr",
+        12 | 13 => "m.idr",
         _ => "m.ring",
     };
+    if name == "m.udr" || name == "m.idr" {
+        // quotient and remainder by a ConstDivisor in every call form; the divisor is a boundary shape most of the time
+        // (no normalisation shift, all ones, just below a word boundary, one / two / three words)
+        let mut op = Op::new(name).a(slot(rng)).b(slot(rng)).c(slot(rng)).dst(slot(rng)).n(rng.below(4) as i64).m(rng.below(200) as i64).form(rng.below(8));
+        if rng.chance(3, 4) {
+            let words = 1 + rng.below(3) as usize;
+            let mut v = vec![0u8; 8 * words];
+            match rng.below(6) {
+                0 => v.iter_mut().for_each(|b| *b = 0xff),
+                1 => *v.last_mut().unwrap() = 0x80,
+                2 => {
+                    v.iter_mut().for_each(|b| *b = 0xff);
+                    v[0] = 0xff - rng.below(200) as u8;
+                }
+                3 => {
+                    for b in v.iter_mut() {
+                        *b = rng.next() as u8;
+                    }
+                    *v.last_mut().unwrap() |= 0x80;
+                }
+                4 => {
+                    for b in v.iter_mut() {
+                        *b = rng.next() as u8;
+                    }
+                    let top = v.len() - 1;
+                    v[top] = 1 + rng.below(127) as u8;
+                }
+                _ => {
+                    v = vec![0u8; 4 * (1 + rng.below(3) as usize)];
+                    v.iter_mut().for_each(|b| *b = 0xff);
+                }
+            }
+            op.lit = v;
+        }
+        return op;
+    }
     let mut op = Op::new(name).a(slot(rng)).b(slot(rng)).c(slot(rng)).dst(slot(rng)).n(rng.below(14) as i64).m(rng.below(200) as i64).form(rng.below(5));
     if name == "m.half" && rng.chance(2, 3) {
         // own modulus: a multiple of 64 bits half of the time (then there is no normalisation shift)
